@@ -32,7 +32,8 @@ LEVEL = 'proof'
 RULE = ('op histories up to length 5 over {init A/B/C (equal and different sizes), evaluate in the same grid cell / '
         'adjacent cell / distant cell / outside the PDF grid, change source, second derivative}; trial data managers '
         'without extra fields, with a static field, with a source field, with source+pre-selection+static fields, with a '
-        'global-fit-parameter dependent field (plain and is_srcevt_data); PDF '
+        'global-fit-parameter dependent field (plain and is_srcevt_data) and with two such fields on different parameters; '
+        'SigOverBkgPDFRatio and SplinedI3EnergySigSetOverBkgPDFRatio; PDF '
         'value caching on/off; Linear1D and Parabola1D; a small grid and an MJD-like grid (58000 + k/8); single dataset, two '
         'datasets (MultiDatasetTCLLHRatio) and the ns-profile function (NsProfileMultiDatasetTCLLHRatio, mean_n_sig_0 0 and 3); '
         'maximize + Wilks test statistic as further operations; two instances driven alternately; a case is one '
@@ -51,12 +52,16 @@ TRUSTED = [
     'read (trial data, source at initialisation, source data field values, event data snapshot, grid values); the theorems '
     'hold for every interpretation, float rounding included, because equal inputs give equal outputs',
     'modelled, not verified: SigOverBkgPDFRatio/SourceWeightedPDFRatio keep per-call scratch values (_cache_sig_pd, '
-    '_cache_R_i, ...) that are overwritten by every get_ratio before get_gradient reads them; one global-fit-parameter '
-    'field depending on the interpolation parameter is modelled (several fields / several parameters are the same loop); '
+    '_cache_R_i, ...) that are overwritten by every get_ratio before get_gradient reads them; up to two global-fit-parameter '
+    'fields (interpolation parameter; ns, registered last) are modelled; '
     're-using ONE events array object for several trials and the photospline branch are outside',
+    'maximize / test statistic: the minimiser is an oracle in the theorem (any deterministic strategy); the real L-BFGS-B '
+    'runs are additionally compared with fresh objects by the predicate',
+    'i3 PDF ratio: the class is instantiated without its constructor (spline table replaced by counting callables); its '
+    'event data array, rebuilt at every call, is modelled by the snapshot taken at initialisation (it is a function of it)',
     'two-dataset machine: the dataset weight factors f are modelled as a function of the source hypothesis (constant '
     'detector signal yields in the correspondence), exactly two datasets; maximize and the test statistic are not in the model '
-    '(no minimizer): they are checked by the fresh-object predicate only',
+    'of the two-dataset machine: there they are checked by the fresh-object predicate only',
     'harness oracle: freshly built objects replaying the minimal history; generic probes (repeat, shared argument buffer, '
     'arguments / constructor arguments unchanged, returned arrays owned by the caller, two instances alternately)',
 ]
@@ -96,14 +101,14 @@ def multi_key(c):
 
 
 def cfg_key(c):
-    return f"{c['world']}/{c['fields']}/{'cache' if c['cache'] else 'nocache'}/{c['interp']}/{c.get('gfp') or 'nogfp'}{'/reuse' if c.get('reuse') else ''}{multi_key(c)}"
+    return f"{c['world']}/{c['fields']}/{'cache' if c['cache'] else 'nocache'}/{c['interp']}/{c.get('gfp') or 'nogfp'}{'/reuse' if c.get('reuse') else ''}{'/i3' if c.get('i3') else ''}{multi_key(c)}"
 
 
 def cfg_coq(c):
     a, b, s = FIELDS[c['fields']]
     g = c.get('gfp')
     return (f"(mkcfg {a} {b} {s} {'true' if c['cache'] else 'false'} {'true' if c['interp'] == 'par' else 'false'} "
-            f"{1 if g else 0} {'true' if g == 'srcevt' else 'false'})")
+            f"{0 if not g else (2 if g.startswith('two') else 1)} {'true' if g and g.endswith('srcevt') else 'false'})")
 
 
 ALL_CFGS = [dict(world=w, fields=f, cache=ca, interp=i, gfp=None)
@@ -118,7 +123,14 @@ GFP_CFGS = [dict(world=w, fields=f, cache=ca, interp=i, gfp=g)
 # (what Analysis.unblind does with data.exp when there is no event selection method)
 REUSE_CFGS = [dict(c, reuse=True) for c in GFP_CFGS if c['gfp'] == 'plain' and c['cache']] + \
              [dict(world='small', fields='all', cache=True, interp='lin', gfp=None, reuse=True)]
-ALL_CFGS = ALL_CFGS + GFP_CFGS + REUSE_CFGS
+# two such fields on DIFFERENT global parameters (gamma first, ns registered last)
+GFP2_CFGS = [dict(world=w, fields=f, cache=True, interp=i, gfp=g)
+             for g in ('two-plain', 'two-srcevt') for w in ('small', 'mjd') for f in ('none', 'all') for i in ('lin', 'par')]
+# SplinedI3EnergySigSetOverBkgPDFRatio (its own ratio cache) in place of the SigOverBkgPDFRatio
+I3_CFGS = [dict(world=w, fields=f, cache=False, interp=i, gfp=g, i3=True)
+           for (w, f, i, g) in (('small', 'none', 'lin', None), ('mjd', 'none', 'par', None), ('small', 'stat', 'par', None),
+                                ('mjd', 'stat', 'lin', None), ('small', 'none', 'lin', 'srcevt'), ('mjd', 'stat', 'par', 'srcevt'))]
+ALL_CFGS = ALL_CFGS + GFP_CFGS + REUSE_CFGS + GFP2_CFGS + I3_CFGS
 # two datasets: MultiDatasetTCLLHRatio over two single-dataset functions, plain (fit parameters ns and gamma) or wrapped
 # by NsProfileMultiDatasetTCLLHRatio (only ns floats, gamma fixed) with mean_n_sig_0 in {0, 3}
 MULTI_CFGS = [dict(world=w, fields=f, cache=ca, interp=i, gfp=(None if pr else g), multi=dict(profile=pr, ns0=n0))
@@ -187,10 +199,18 @@ class Rig:
             def calc_w(tdm, shg_mgr, pmm, global_fitparams_dict=None):
                 trace.append(('G',))
                 x = tdm.get_data('x')
-                if gfp == 'srcevt':
+                if gfp.endswith('srcevt'):
                     x = np.take(x, tdm.src_evt_idxs[1])
                 return x * 0.001 * (global_fitparams_dict['gamma'] - lb + 1.0) + 0.002 * shg_mgr.source_list[0].dec
-            tdm.add_data_field('w', calc_w, global_fitparam_names=['gamma'], is_srcevt_data=(gfp == 'srcevt'))
+            tdm.add_data_field('w', calc_w, global_fitparam_names=['gamma'], is_srcevt_data=gfp.endswith('srcevt'))
+            if gfp.startswith('two'):
+                def calc_v(tdm, shg_mgr, pmm, global_fitparams_dict=None):
+                    trace.append(('G2',))
+                    x = tdm.get_data('x')
+                    if gfp.endswith('srcevt'):
+                        x = np.take(x, tdm.src_evt_idxs[1])
+                    return np.cos(x) * 0.0007 * global_fitparams_dict['ns'] + 0.001 * shg_mgr.source_list[0].ra
+                tdm.add_data_field('v', calc_v, global_fitparam_names=['ns'], is_srcevt_data=gfp.endswith('srcevt'))
         gridvals = np.array([w['lb'] + k * w['delta'] for k in range(w['npts'])])
         grid = ParameterGrid('gamma', gridvals, delta=w['delta'])
         bx = BinningDefinition('x', np.linspace(0, 10, 11))
@@ -207,6 +227,8 @@ class Rig:
                     v = v + tdm.get_data('stat')
                 if gfp:
                     v = v + tdm.get_data('w')
+                    if gfp.startswith('two'):
+                        v = v + tdm.get_data('v')
                 return v
             return f
         pdfs = []
@@ -232,8 +254,51 @@ class Rig:
             pmm=pmm, axis_binnings=[bx], pdf_grid_data=np.linspace(2.0, 1.0, 11) * (1.0 + 0.11 * ds),
             norm_factor_func=norm(('B',), 7), cache_pd_values=c['cache'], cfg=cfg)
         ratio = SigOverBkgPDFRatio(sig_pdf=self.sigset, bkg_pdf=self.bkg, cfg=cfg)
+        if c.get('i3'):
+            ratio = self._mk_i3_ratio(c, w, grid, gridvals, icls, nstat, gfp)
         self.llh = ZeroSigH0SingleDatasetTCLLHRatio(
             pmm=pmm, minimizer=Minimizer(LBFGSMinimizerImpl(cfg=cfg)), shg_mgr=shg, tdm=tdm, pdfratio=ratio, cfg=cfg)
+
+    def _mk_i3_ratio(self, c, w, grid, gridvals, icls, nstat, gfp):
+        """a real SplinedI3EnergySigSetOverBkgPDFRatio whose spline table is replaced by counting callables (its
+        constructor needs I3 energy PDF sets): get_ratio / get_gradient / _is_cached / _calculate_ratio_and_grads /
+        _evaluate_splines / _create_interpol_params_recarray and the interpolation method are the real code"""
+        from skyllh.i3.pdfratio import SplinedI3EnergySigSetOverBkgPDFRatio as I3R
+        from skyllh.core.py import make_dict_hash
+        trace, unit = self.trace, self.unit
+
+        from skyllh.core.parameters import ParameterGridSet
+
+        class Dummy:
+            param_grid_set = ParameterGridSet([grid])
+
+            def initialize_for_new_trial(self, **kw):
+                pass
+
+            def assert_is_valid_for_trial_data(self, **kw):
+                pass
+        r = object.__new__(I3R)
+        r._cfg = self.cfg
+        r._sig_param_names = ['gamma']
+        r._bkg_param_names = []
+        r._sig_pdf_set = Dummy()
+        r._bkg_pdf = Dummy()
+        r._interpol_param_names = ['gamma']
+        r._data_field_names = ['x'] + (['stat'] if nstat else []) + (['w'] if gfp else [])
+        splines = {}
+        for k, g in enumerate(gridvals):
+            def spline(pts, k=k, g=g):
+                trace.append(('P', int(round(g * unit))))
+                return np.log(0.6 + 0.1 * k + 0.04 * pts[:, 0] + (pts[:, 1:].sum(axis=1) if pts.shape[1] > 1 else 0.0))
+            splines[make_dict_hash({'gamma': g})] = spline
+        r._gridparams_hash_log_ratio_spline_dict = splines
+
+        def counting(tdm, eventdata, gridparams_recarray, n_values):
+            trace.append(('F', int(round(float(gridparams_recarray['gamma'][0]) * unit))))
+            return r._evaluate_splines(tdm=tdm, eventdata=eventdata, gridparams_recarray=gridparams_recarray, n_values=n_values)
+        r._interpolmethod = icls(func=counting, param_grid_set=grid)
+        r._cache = r._create_cache(trial_data_state_id=None, interpol_params_recarray=None, ratio=None, grads=None)
+        return r
 
     def _mk_shg(self, k):
         from skyllh.core.source_hypo_grouping import SourceHypoGroupManager, SourceHypoGroup
@@ -490,6 +555,8 @@ def history_coq(c, hist):
         mc = f"(mkmcfg {'true' if m['profile'] else 'false'} {m['ns0']} {int(round(w['xs']['p'] * w['unit']))})"
         return (f'let W := {world_coq(c["world"])} in let MW := {mw} in '
                 f'mrun W {cc} MW {mc} (minit W {cc} MW {SOURCES[1][0]}) [{ops}]')
+    if c.get('i3'):
+        return f'let W := {world_coq(c["world"])} in i3run W {cc} (i3init W {cc} {SOURCES[1][0]}) [{ops}]'
     return f'let W := {world_coq(c["world"])} in run W {cc} (init W {cc} {SOURCES[1][0]}) [{ops}]'
 
 
@@ -517,6 +584,8 @@ def canon_model_step(v):
             t.append(('B',))
         elif e == 'TG':
             t.append(('G',))
+        elif e == 'TG2':
+            t.append(('G2',))
         elif e[0] == 'TF':
             t.append(('F', e[1]))
         else:
@@ -706,7 +775,10 @@ def compare(ctx, checks, vals, groups):
             if tr != mt:
                 ctx.disagree('cache.trace', dict(case, step=i), tr, mt, 'hit/miss trace differs')
                 break
-            if ob[:2] != mo[:2] or (ob[0] != 'none' and ob[1] == 'Err' and ob[2] != mo[2]):
+            # an operation before any trial was initialised raises; which exception class depends on which attribute is
+            # touched first (None events / None indices): only "raises" is compared there
+            no_trial = not any(o[0] == 'init' for o in hist[:i])
+            if ob[:2] != mo[:2] or (ob[0] != 'none' and ob[1] == 'Err' and ob[2] != mo[2] and not no_trial):
                 ctx.disagree('cache.result_kind', dict(case, step=i), ob, mo[:2] + ([mo[2]] if mo[1:2] == ['Err'] else []),
                              'value / exception differs')
                 break
